@@ -3,6 +3,10 @@ import torch
 from ..domain import Domain, BoundaryDomain
 from ...spaces import Points
 
+# Absolute tolerance for barycentric coordinates of boundary points. Points are
+# stored in single precision, so coordinates that should be 0 are only close to 0.
+BARY_ATOL = 1.0e-5
+
 
 class Parallelogram(Domain):
     """Class for arbitrary parallelograms, even if time dependet
@@ -175,9 +179,11 @@ class ParallelogramBoundary(BoundaryDomain):
         return torch.logical_or(x_close, y_close)
 
     def _bary_coords_close_to_0_or_1(self, bary_coord1, bary_coord2):
-        between_0_1 = torch.logical_and(0 <= bary_coord2, bary_coord2 <= 1)
-        close_to_0 = torch.isclose(bary_coord1, torch.tensor(0.0))
-        close_to_1 = torch.isclose(bary_coord1, torch.tensor(1.0))
+        between_0_1 = torch.logical_and(
+            -BARY_ATOL <= bary_coord2, bary_coord2 <= 1 + BARY_ATOL
+        )
+        close_to_0 = torch.isclose(bary_coord1, torch.tensor(0.0), atol=BARY_ATOL)
+        close_to_1 = torch.isclose(bary_coord1, torch.tensor(1.0), atol=BARY_ATOL)
         return torch.logical_and(torch.logical_or(close_to_1, close_to_0), between_0_1)
 
     def _get_volume(self, params=Points.empty(), device="cpu"):
@@ -282,8 +288,12 @@ class ParallelogramBoundary(BoundaryDomain):
     def _add_local_normal_vector(
         self, normals, bary_x, bary_y, normal_dir_1, normal_dir_2, i
     ):
-        y_close_i = torch.where(torch.isclose(bary_y, torch.tensor(i)), 2 * i - 1, 0.0)
-        x_close_i = torch.where(torch.isclose(bary_x, torch.tensor(i)), 2 * i - 1, 0.0)
+        y_close_i = torch.where(
+            torch.isclose(bary_y, torch.tensor(i), atol=BARY_ATOL), 2 * i - 1, 0.0
+        )
+        x_close_i = torch.where(
+            torch.isclose(bary_x, torch.tensor(i), atol=BARY_ATOL), 2 * i - 1, 0.0
+        )
         normals += normal_dir_1 * y_close_i
         normals += normal_dir_2 * x_close_i
 
